@@ -249,7 +249,11 @@ def parseSingle (cs : List Char) (isMarker : Bool) : PyM VC :=
     match tilde440 with
     | some t => do
       let v ← parseVersionText t
-      let high := if v.precision == 2 then v.stable.nextMajor else v.stable.nextMinor
+      -- precision 2: next major; ≤ 3: next minor; else bump the second to last release segment
+      let high :=
+        if v.precision == 2 then v.stable.nextMajor
+        else if v.precision ≤ 3 then v.stable.nextMinor
+        else Version.mk' v.epoch (Version.bumpSecondToLast v.release) none none none none
       pure (.single (.rng ⟨some v, some high, true, false⟩))
     | none =>
     let caret : Option String :=
